@@ -99,7 +99,3 @@ func cmdVerify(args []string) {
 	}
 }
 
-func cmdCheck(args []string) {
-	fmt.Fprintln(os.Stderr, "check: not built yet")
-	os.Exit(2)
-}
